@@ -370,7 +370,15 @@ def any_into_iter(I, a, n):
 
 @model(r"^std::vec::Vec::drain$")
 def vec_drain(I, a, n):
+    """drain(range): the elements of the range leave the vector (panics like slicing does for a bad range)"""
+    from .models_core import slice_range
     v = deref(a[0])
+    r = unbox(a[1]) if len(a) > 1 else None
+    if isinstance(r, (Agg, EnumV)) and r.ty.split("::")[-1] in ("Range", "RangeTo", "RangeFrom", "RangeInclusive"):
+        sl = slice_range(I, v, r)
+        items = list(v.items[sl.lo:sl.hi])
+        del v.items[sl.lo:sl.hi]
+        return ListIt(items, False)
     items = list(v.items)
     del v.items[:]
     return ListIt(items, False)
@@ -575,7 +583,7 @@ def from_iter(I, a, n):
     return collect_into(I, into_iter(I, a[0]).drain(I), m.group(1))
 
 
-@model(ITER_RX + r"(any|all|find|find_map|position|count|last|nth|fold|for_each|try_for_each|partition|max|min|max_by_key|min_by_key|sum|unzip|contains|join|join_with|concat|for_each_while|reduce|try_fold|eq|is_sorted|max_by|min_by)$")
+@model(ITER_RX + r"(any|all|find|find_map|position|rposition|count|last|nth|fold|for_each|try_for_each|partition|max|min|max_by_key|min_by_key|sum|unzip|contains|join|join_with|concat|for_each_while|reduce|try_fold|eq|is_sorted|max_by|min_by)$")
 def iter_consumer(I, a, n):
     op = meth(n)
     it = into_iter(I, a[0])
@@ -617,6 +625,28 @@ def iter_consumer(I, a, n):
             if I.branch_bool(I.callf(a[1], [x])):
                 return SOME(k)
             k += 1
+    if op in ("min_by", "max_by"):
+        # closure: (&a, &b) -> Ordering (Less / Equal / Greater = variants 0 / 1 / 2); min_by keeps the first of equal minima,
+        # max_by the last of equal maxima
+        xs = it.drain(I)
+        if not xs:
+            return NONE()
+        best = xs[0]
+        for x in xs[1:]:
+            o = deref(I.callf(a[1], [Ref([best], 0), Ref([x], 0)]))
+            ov = o.variant if isinstance(o, EnumV) else (o + 1)
+            if op == "min_by":
+                if ov == 2:
+                    best = x
+            elif ov != 2:
+                best = x
+        return SOME(best)
+    if op == "rposition":
+        xs = it.drain(I)
+        for k in range(len(xs) - 1, -1, -1):
+            if I.branch_bool(I.callf(a[1], [xs[k]])):
+                return SOME(k)
+        return NONE()
     if op == "count":
         return len(it.drain(I))
     if op == "last":
